@@ -105,7 +105,12 @@ class OptionBag:
         self._basic_key = schema.registry.get("basic-key")
         for item in options:
             optpath, val, pos = item
-            name = sectiontype.keytype(optpath[0])
+            try:
+                name = sectiontype.keytype(optpath[0])
+            except ValueError as e:
+                url, lineno, colno = pos
+                raise ZConfig.DataConversionError(
+                    e, optpath[0], (lineno, colno, url))
             if len(optpath) == 1:
                 self.add_value(name, val, pos)
             else:
